@@ -701,7 +701,41 @@ def rule_k(ctx, out):
         raise AnalysisError("compare_forves: no `return \"true\"` found")
 
 
+def rule_l(ctx, out):
+    """The adapter shows the external checker only the optimizable segments; the instructions between them (terminators, JUMPDEST, the
+    split instructions LOG / CALL / COPY / CREATE ...) are compared by the adapter itself, and a pair that differs there must not be
+    rendered at all (forves_format answers None, compare_forves then cannot say "true").  forves_format is interpreted on parsed pairs that
+    differ in one isolated instruction, that have an isolated instruction on one side only, or that are identical."""
+    from ..core.interp import ModuleInterp
+    from ..core.minieval import Unsupported, Raised
+    f = ctx.func("verification.forves_verification.forves_format")
+    mi = ModuleInterp(ctx, max_steps=50000, extern={"str_to_list": lambda x: x})
+    seg, seg2 = ["PUSH1", "0x01", "ADD"], ["PUSH1", "0x02", "MUL"]
+    cases = [("identical", [seg, "RETURN"], [seg, "RETURN"], True), ("identical-no-isolated", [seg], [seg], True),
+             ("terminator-differs", [seg, "RETURN"], [seg, "REVERT"], False), ("split-instruction-differs", [seg, "CALL", seg2], [seg, "CALLCODE", seg2], False),
+             ("copy-differs", ["CALLDATACOPY", seg], ["CODECOPY", seg], False), ("isolated-on-one-side", [seg, "STOP"], [seg, seg2], False),
+             ("isolated-on-the-other-side", [seg, seg2], [seg, "STOP"], False), ("two-isolated-second-differs", ["JUMPDEST", seg, "STOP"], ["JUMPDEST", seg, "INVALID"], False)]
+    for name, a, b, renderable in cases:
+        try:
+            got = mi.call(f, a, b)
+        except Raised as e:
+            got = None
+        except Unsupported as e:
+            raise AnalysisError(f"forves_format cannot be evaluated abstractly ({name}): {e}")
+        if renderable and isinstance(got, str):
+            out.ok({"pair": name, "rendered": True})
+        elif not renderable and got is None:
+            out.ok({"pair": name, "rendered": False})
+        elif renderable:
+            out.bad(f"forves-pair-not-rendered:{name}", f"forves_format does not render the pair ({a} / {b}): every comparison through the adapter fails", where(f))
+        else:
+            out.bad(f"forves-renders-a-pair-that-differs-outside-the-segments:{name}", f"forves_format renders the pair {a} / {b} as if the two blocks differed only "
+                    f"inside the segments it shows (`{str(got)[:60].replace(chr(10), " | ")}`): the external checker never sees the instruction that differs, and compare_forves "
+                    f"answers \"true\" for distinguishable blocks", where(f))
+
+
 RULES = [
+    ("C05.l", "the external-checker adapter refuses pairs that differ outside the rendered segments", 8, rule_l),
     ("C05.k", "the external-checker adapter says true only for rendered pairs", 1, rule_k),
     ("C05.j", "the block comparison looks at every part of a block (split instructions included)", 18, rule_j),
     ("C05.i", "the comparison is sensitive to every component of a specification", 100, rule_i),
